@@ -7,7 +7,7 @@
    per generated program by running the real instruction words in Bpf.v on probe packets. *)
 From Coq Require Import List NArith Bool.
 From Verif.Common Require Import Packet PolicyRef.
-From Verif.C11 Require Import Bpf Model Spec Proofs ProofsRule ProofsTiers ProofsMain ProofsSplit.
+From Verif.C11 Require Import Bpf Model Spec Proofs ProofsRule ProofsTiers ProofsMain ProofsSplit ProofsSets.
 Import ListNotations.
 Open Scope N_scope.
 
@@ -52,6 +52,29 @@ Proof.
   simpl in H. rewrite H. eexists. reflexivity.
 Qed.
 Print Assumptions c11_model_meets_spec.
+
+(* The two concrete oracles check_case uses (the LPM lookup of Bpf.v and PolicyRef's reading of the same member
+   table) satisfy sets_agree whenever every set holds members of one kind ... *)
+Theorem c11_table_sets_agree : forall e,
+  table_homogeneous (e_sets e) = true ->
+  sets_agree (table_kind (e_sets e)) (ref_sets (addr_bits e) (e_sets e)) (set_lookup e).
+Proof. exact table_sets_agree. Qed.
+Print Assumptions c11_table_sets_agree.
+
+(* ... so for every correspondence case (fixed tree) the verdict check_case expects of the real instruction stream
+   IS the reference verdict, by theorem rather than by the run: *)
+Theorem c11_case_model_is_reference : forall c progs ps,
+  table_homogeneous (c_sets c) = true -> valid_rules (c_rules c) = true ->
+  typed_rules (table_kind (c_sets c)) (c_rules c) = true -> addrs_in_range (ver_of c) ps ->
+  exists lg, model_verdict fixed_variant (ver_of c) (c_rules c) (set_lookup (env_of c progs)) ps
+             = Some (ref_verdict (ref_sets (bits_of c) (c_sets c)) (ver_of c) (c_rules c) ps, lg).
+Proof.
+  intros c progs ps Hh Hv Ht Ha.
+  apply (c11_model_meets_spec (ver_of c) (ref_sets (bits_of c) (c_sets c)) (set_lookup (env_of c progs))
+           (table_kind (c_sets c)) ps (c_rules c)); try assumption.
+  exact (table_sets_agree (env_of c progs) Hh).
+Qed.
+Print Assumptions c11_case_model_is_reference.
 
 (* Splitting (maybeSplitProgram): the body cut into consecutive chunks, each with its own footer, the pending jump
    target encoded by the landing pads as its position in the chunk's dangling-target list and decoded by the next
